@@ -179,6 +179,8 @@ def _pool():
     out.append(const_av([1, 2, 3]))
     out.append(const_av([[1, 2], [3, 4]]))
     out.append(const_av([]))
+    out.append(AV('list', items=(const_av('#N/A'), const_av(''), const_av(1), AV('blank', sign='zero'))))
+    out.append(const_av([0, '', None, '#DIV/0!']))
     return out
 
 
